@@ -396,6 +396,18 @@ func c01ApplyOp(seq gts.Sequence, op string) gts.Sequence {
 		return gts.Insert(seq, 0, guest)
 	case "embed-mid":
 		return gts.Embed(seq, n/2, guest)
+	case "undo-insert-mid":
+		// removes exactly what insert-mid put in (when it is applied right after it)
+		if n < 2 {
+			return seq
+		}
+		return gts.Delete(seq, (n-2)/2, 2)
+	case "delete-gap":
+		// a deletion in the middle that may bring two parts of a join into contact
+		if n < 12 {
+			return seq
+		}
+		return gts.Delete(seq, 4, 4)
 	case "delete-head":
 		if n < 3 {
 			return seq
@@ -446,7 +458,7 @@ func c01ApplyOp(seq gts.Sequence, op string) gts.Sequence {
 	return seq
 }
 
-var c01Ops = []string{"insert-mid", "insert-0", "embed-mid", "delete-head", "delete-mid", "erase-mid", "erase-all", "slice-mid", "slice-wrap", "slice-empty-table", "rotate", "reverse", "complement", "concat-self", "clear"}
+var c01Ops = []string{"insert-mid", "undo-insert-mid", "delete-gap", "insert-0", "embed-mid", "delete-head", "delete-mid", "erase-mid", "erase-all", "slice-mid", "slice-wrap", "slice-empty-table", "rotate", "reverse", "complement", "concat-self", "clear"}
 
 func c01Seed(name string) []gts.Sequence {
 	switch name {
